@@ -23,8 +23,13 @@ def text(lo=1, hi=20, alphabet=PRINTABLE):
     return s.strip() or "x"
 
 
+TRICKY = [b"\\'", b"'\\", b'\\"', b"\\\\'", b"a\\'b", b"'", b'"', b"\\", b"\\\\", b"\\n", b"\n", b" ;", b"; ", b"{", b"#x"]
+
+
 def arg_bytes():
     r = rng.random()
+    if r < 0.25:
+        return rng.choice(TRICKY)
     if r < 0.3:
         return bytes(rng.randrange(256) for _ in range(rng.randrange(0, 8)))
     if r < 0.6:
@@ -36,9 +41,9 @@ def gen_steps(members, terms, static_ok=True):
     steps = []
     if static_ok:
         for _ in range(rng.randrange(0, 3)):
-            steps.append(("_header", (text(1, 10, "abcXYZ-") + ": " + text(0, 12)).encode()))
+            steps.append(("_header", (text(1, 10, "abcXYZ-") + ": " + rng.choice([text(0, 12), "a: b", "x=y; z"])).encode()))
         for _ in range(rng.randrange(0, 2)):
-            steps.append(("_parameter", (text(1, 6, "abcxyz") + "=" + text(0, 8, "abc019")).encode()))
+            steps.append(("_parameter", (text(1, 6, "abcxyz") + "=" + rng.choice([text(0, 8, "abc019"), "dGVzdA==", "a=b", ""])).encode()))
     for m, t in zip(members, terms):
         steps.append(("build", m))
         for _ in range(rng.randrange(0, 4)):
@@ -111,6 +116,24 @@ def build_config(ua=None, extra_text_bs=False):
             else:
                 blob += bytes([e]); items.append(nm)
         extra.append(cfggen.setting(51, T_PTR, blob + b"\x00", 128)); want["process-inject.execute"] = items
+    for idx, arch in ((46, "x86"), (47, "x64")):
+        if rng.random() < 0.4:
+            pre, app = arg_bytes(), arg_bytes()
+            extra.append(cfggen.setting(idx, T_PTR, len(app).to_bytes(4, "big") + app + len(pre).to_bytes(4, "big") + pre, 256))
+            if arch == "x86":
+                # documented list path: (name, bytes) entries, prepend first
+                if pre or app:
+                    want["process-inject.transform-x86(list)"] = ([("prepend", pre)] if pre else []) + ([("append", app)] if app else [])
+            else:
+                if pre:
+                    want["process-inject.transform-x64.prepend(bytes)"] = [pre]
+                if app:
+                    want["process-inject.transform-x64.append(bytes)"] = [app]
+    for idx, key in ((58, "tcp_frame_header"), (57, "smb_frame_header")):
+        if rng.random() < 0.3:
+            hdr = arg_bytes() or b"h"
+            extra.append(cfggen.setting(idx, T_PTR, (len(hdr) + 4).to_bytes(2, "big") + hdr, 128))
+            want[key + "(bytes)"] = [hdr]
     if rng.random() < 0.4:
         v = rng.choice([0, 1]); extra.append(cfggen.setting(52, T_SHORT, v))
         want["process-inject.allocator"] = ["NtMapViewOfSection" if v else "VirtualAllocEx"]
@@ -178,6 +201,13 @@ def check(blk, desc, want, comp_, key, klass=None):
                     names |= {"Comms": set(GATE[:2]), "Core": set(GATE[2:22]), "Cleanup": set(GATE[22:]), "All": set(GATE)}.get(g, {g})
                 if names != set(v):
                     problems.append({"key": "stage.beacon_gate", "got": repr(got)[:200], "want": repr(v)[:200]})
+            elif k.endswith("(list)"):
+                if d.get(k[:-6]) != v:
+                    problems.append({"key": k, "got": repr(d.get(k[:-6]))[:200], "want": repr(v)[:200]})
+            elif k.endswith("(bytes)"):
+                got = [dec(x) for x in d.get(k[:-7], [])]
+                if got != v:
+                    problems.append({"key": k, "got": repr(d.get(k[:-7]))[:200], "want": repr(v)[:200]})
             elif k == "process-inject.execute":
                 if d.get(k) != v:
                     problems.append({"key": k, "got": repr(d.get(k))[:200], "want": repr(v)[:200]})
